@@ -67,6 +67,9 @@ def run(ctx, report: Report) -> None:
                     p.startswith('css_types.') and p.endswith('._validate') for p in tuple(e.path) + (origin,)):
                 # the argument validation of the immutable maps, wherever its body lives
                 doc = 'map entries that are not str / not hashable: outside the domain (str -> str maps)'
+            if doc is None and exc == 'KeyError' and 'css_parser.process_custom' in tuple(e.path):
+                # the duplicate-name check of process_custom, wherever its body lives
+                doc = DOCUMENTED[('KeyError', 'css_parser.process_custom')]
             ok = exc in ALLOWED or doc is not None
             r1.instance({'raise': e.text[:80], 'type': exc, 'in': origin,
                          'status': 'allowed' if exc in ALLOWED else (doc or 'UNDOCUMENTED')},
